@@ -658,7 +658,7 @@ pub fn main(args: &Args) {
     let seed = seed_from(args);
     let tier = args.get("tier").unwrap_or("quick").to_string();
     let thorough = tier == "thorough";
-    let n = args.u64("scenarios", if thorough { 6000 } else { 500 });
+    let n = args.u64("scenarios", if thorough { 30_000 } else { 1_500 });
     let workers = args.u64("workers", std::thread::available_parallelism().map(|n| n.get() as u64).unwrap_or(8)) as usize;
     let bins = Arc::new(Binaries::locate());
     let repo = PathBuf::from(std::env::var("VERIF_REPO").unwrap_or_else(|_| "/repo".into()));
